@@ -152,3 +152,25 @@ TEXT['C04']['text'] += ' date_shift_single_component: [+|-]<n> <unit> is sign * 
 TEXT['C11']['text'] += ' Histories with a commit citing a real earlier id (a first run translates nothing, dry or real); a sensitive-mode dry run on a clone whose origin moved on must not grow the object set.'
 TEXT['C14']['text'] += ' Scenarios inside a linked work tree of a bare clone and with a separate target whose HEAD differs from the source\'s.'
 TEXT['C07']['text'] += ' Content-rule cases also rewrite into a separate target (empty, or a clone holding the old history) whose whole object store is scanned.'
+
+# ---- additions of session 5: the command line, the pipe builders, the bridge to the simulation -------------------------
+CLI = (' Command line: Frrs/Cli.lean models opts.rs parse_args as a whole (every flag, the --config pre-pass, the --cleanup look-ahead, the '
+       'default clean-up) and Frrs/Pipes.lean models pipes.rs (exporter/importer command lines) and lib.rs validate_options; both are tied by the cliargs suite, '
+       'which parses every generated command line with the real parse_args in a child process and compares all option fields, the two command lines and the '
+       'validation verdict with the model.')
+_ADD = {
+    'C02': ' Bridge to the simulation (Proofs/Bridge.lean): the parents finalize_parent_lines keeps are proved equal to Sim.dedup (parents.map canon), resolve_canonical_mark on a one-level alias table to the single look-up Sim.canon (the table stays one level deep under the insertion made for a pruned commit), and the default prune decision of should_keep_commit to the alias case of Sim.fstep — the line-level functions tied to the code compute the pieces of the command-level filter over which the graph theorem is proved.',
+    'C05': ' For every command line that reaches the filter with a --replace-text file the exporter is started without --no-data (every_filtering_run_with_rules_sees_blob_data: parse_args, validate_options and build_fast_export_cmd composed); the order of --replace-text and --no-data on the line cannot matter (content_rule_flags_survive_the_line). New fn-level suites rxapply-blob/-msg check the fold of apply_regex (file order, each rule once over all its matches, empty payloads included) against the regex crate and the model\'s template expansion.' + CLI,
+    'C06': ' The tool adds --no-data on its own only when it writes back into the repository it reads (auto_no_data_only_in_place, PathBuf equality modelled as component equality); a zero or all-ones --max-blob-size is refused by validate_options for every command line that carries it (validCli, tied by cliargs).' + CLI,
+    'C07': ' full_real_run_is_cleaned: for every command line, a run that is neither partial nor a dry run is given a clean-up mode (the legacy `--cleanup none` cannot switch it off); ref_selection_means_partial.' + CLI,
+    'C08': ' importer_never_folds_case: for every option set `-c core.ignorecase=false` stands before fast-import; exporter_keeps_utf8_paths.' + CLI,
+    'C10': ' every_export_uses_the_done_feature: for every option set the exporter is started with --use-done-feature.' + CLI,
+    'C11': ' dry_run_first_is_a_dry_run, dry_run_is_sticky, dry_run_gets_no_default_cleanup (for every command line) and preview_starts_the_same_exporter (build_fast_export_cmd does not read dry_run).' + CLI,
+    'C12': ' force_flag_survives_the_line (model of parse_args).',
+    'C13': ' backup_flag_survives_the_line (model of parse_args).',
+    'C16': ' selectors_passed_the_normaliser / no_backslash_reaches_the_filter: for every command line, every --path selector the run is given went through the normaliser (as typed, or with the `/` of --subdirectory-filter).' + CLI,
+    'C19': ' scan_modes_never_filter: --analyze and --detect-secrets never reach the filter, whatever stands next to them (model of lib.rs run).',
+}
+for _k, _v in _ADD.items():
+    if _k in TEXT:
+        TEXT[_k]['text'] = TEXT[_k]['text'] + _v
